@@ -209,6 +209,7 @@ CHECKS = {
             {"pkg": "racew", "race": True, "run": "^TestC14Pairs$", "quick": 1, "thorough": 1, "rapid": False, "env": {"VERIF_C14_ROUNDS": "3000"}, "timeout_quick": 900},
             {"pkg": "racew", "race": True, "run": "^TestC14Codecs$", "quick": 300, "thorough": 20000, "shards_thorough": 4},
             {"pkg": "racew", "race": True, "run": "^TestC14Overloader$", "quick": 60, "thorough": 3000, "shards_thorough": 4},
+            {"pkg": "racew", "race": True, "run": "^TestC14Completion$", "quick": 400, "thorough": 20000, "shards_thorough": 4},
             {"pkg": "racew", "race": True, "run": "^TestC14Pairs$", "quick": 1, "thorough": 1, "rapid": False, "only": "thorough", "env": {"VERIF_C14_ROUNDS": "30000"}},
             {"pkg": "racew", "race": True, "run": "^TestC14Programs$", "quick": 40, "thorough": 200, "shards_thorough": 4, "env": {"VERIF_C14_LOG": "info"}, "timeout_quick": 900, "timeout_thorough": 7200},
         ],
